@@ -45,7 +45,7 @@ META = {
             "accept cycle / right after it) x tx_ready pattern (always, every n, literal list); det: 10-50 packets (handshakes, "
             "bad check nibbles, over-long handshakes, aborted, tokens, data, garbage) with per-packet timing",
 }
-TIERS = {"quick": {"runs": 30000, "wall": 70}, "thorough": {"runs": 400000, "wall": 900}}
+TIERS = {"quick": {"runs": 60000, "wall": 70}, "thorough": {"runs": 400000, "wall": 900}}
 
 GEN_LATENCY = 4
 DET_LATENCY = 4
